@@ -1352,3 +1352,8 @@ NOT_PROVED = _np + [
 # Generated/SrcC10Mut.lean and proved equal to the hand model in Props/SrcTieC10Mut.lean)
 from . import srctie
 srctie.wire_mut(globals(), 'C10')
+
+# --- deep theorems (Rounding7, wired by the lead)
+PROOF_MODULES = PROOF_MODULES + [m for m in ['Compute.Lemmas.Rounding7', 'Compute.Props.Rounding7'] if m not in PROOF_MODULES]
+REQUIRED_THEOREMS = REQUIRED_THEOREMS + ['Cv.Rounding7.LM.lm_fixed_iff', 'Cv.Rounding7.LM.lm_rss_decrease', 'Cv.Rounding7.LM.lm_linear_rho_pos', 'Cv.Rounding7.LM.lm_mu_update_lt_two', 'Cv.Rounding7.LM.lm_error_recursion', 'Cv.Rounding7.LM.lm_contraction', 'Cv.Rounding7.LM.lm_geometric', 'Cv.Rounding7.LM.lm_rate_lt_one', 'Cv.Rounding7.LM.step_of_model']
+NOT_PROVED = [x for x in NOT_PROVED if not str(x).startswith('LM convergence')] + ['LM convergence on models linear in the parameters IS proved over the reals with the exact solver (Props/Rounding7, namespace LM): the fixed points of a step are exactly the least-squares solutions; every step strictly decreases the residual unless theta is one, and is accepted (gain ratio > 0), so the damping stays in [1/3, 2) after the first step; error recursion (A + lam D)(theta+ - theta*) = lam D (theta - theta*) and geometric convergence ||theta_k - theta*||^2_A <= (Lam kappa/(1+Lam kappa))^k ||theta_0 - theta*||^2_A for D <= kappa J^T J (full column rank) and lam <= Lam; one step of lmBody is tied to this (step_of_model); the stop tests (eps1/eps2), nonlinear models and floating point are oracle only']
